@@ -75,6 +75,10 @@ func init() {
 			ex.mapNondet = a[0].(*Term).IsTrue()
 			return nil
 		},
+		"vHashCollisionFree": func(ex *Exec, fn *ssa.Function, a []Value) Value {
+			ex.hashInjective = a[0].(*Term).IsTrue()
+			return nil
+		},
 		"vStop": func(ex *Exec, fn *ssa.Function, a []Value) Value { panic(pathEnd{kind: "stop"}) },
 		"vNote": func(ex *Exec, fn *ssa.Function, a []Value) Value { ex.noteOnce(ex.tagOf(a[0])); return nil },
 		// vIsConcrete(x uint64) reports whether the engine holds x as a constant (natively: true)
